@@ -842,6 +842,7 @@ func run(c *lib.Ctx) {
 			checkList(c)
 		}
 		m.blockOrder()
+		m.redirOnPlainTwin()
 	}
 	m.be.ln.Close()
 	if part != "" && part != "metamorphic" {
